@@ -458,14 +458,19 @@ func (t *SymbolTable) GetOpt(s Strings) grammar.NonTerminal {
 	defer t.Unlock()
 
 	e, ok := t.strings.table.Get(s)
-	if ok {
+	if ok && e.Opt != "" {
 		return e.Opt
 	}
 
 	opt := t.mapStringToNoneTerminal(s, "opt")
-	t.strings.table.Put(s, &stringsEntry{
-		Opt: opt,
-	})
+	if ok {
+		// The strings are already known from another operator; record the name for this operator too.
+		e.Opt = opt
+	} else {
+		t.strings.table.Put(s, &stringsEntry{
+			Opt: opt,
+		})
+	}
 
 	return opt
 }
@@ -477,14 +482,19 @@ func (t *SymbolTable) GetGroup(s Strings) grammar.NonTerminal {
 	defer t.Unlock()
 
 	e, ok := t.strings.table.Get(s)
-	if ok {
+	if ok && e.Group != "" {
 		return e.Group
 	}
 
 	group := t.mapStringToNoneTerminal(s, "group")
-	t.strings.table.Put(s, &stringsEntry{
-		Group: group,
-	})
+	if ok {
+		// The strings are already known from another operator; record the name for this operator too.
+		e.Group = group
+	} else {
+		t.strings.table.Put(s, &stringsEntry{
+			Group: group,
+		})
+	}
 
 	return group
 }
@@ -496,14 +506,19 @@ func (t *SymbolTable) GetStar(s Strings) grammar.NonTerminal {
 	defer t.Unlock()
 
 	e, ok := t.strings.table.Get(s)
-	if ok {
+	if ok && e.Star != "" {
 		return e.Star
 	}
 
 	star := t.mapStringToNoneTerminal(s, "star")
-	t.strings.table.Put(s, &stringsEntry{
-		Star: star,
-	})
+	if ok {
+		// The strings are already known from another operator; record the name for this operator too.
+		e.Star = star
+	} else {
+		t.strings.table.Put(s, &stringsEntry{
+			Star: star,
+		})
+	}
 
 	return star
 }
@@ -515,14 +530,19 @@ func (t *SymbolTable) GetPlus(s Strings) grammar.NonTerminal {
 	defer t.Unlock()
 
 	e, ok := t.strings.table.Get(s)
-	if ok {
+	if ok && e.Plus != "" {
 		return e.Plus
 	}
 
 	plus := t.mapStringToNoneTerminal(s, "plus")
-	t.strings.table.Put(s, &stringsEntry{
-		Plus: plus,
-	})
+	if ok {
+		// The strings are already known from another operator; record the name for this operator too.
+		e.Plus = plus
+	} else {
+		t.strings.table.Put(s, &stringsEntry{
+			Plus: plus,
+		})
+	}
 
 	return plus
 }
